@@ -27,6 +27,7 @@ import (
 //	                    (session termination), and never deletes on a mere write failure of a stream
 //	R-table-lock-free-write  no write to a session's stream happens while the table's lock is held
 //	R-register-first    the registering handler sends to the session only after its own record is in the table
+//	R-ends-on-cancel    after registering, the handler waits on the Done() of the context its record's cancel function cancels
 //	R-slot-owner        (client) a stream goroutine touches the shared stream slot only while it still owns it
 func init() { Registry["C11"] = checkC11 }
 
@@ -299,6 +300,103 @@ func checkC11(c *Ctx) {
 							sprintf("on its exit path %s changes %s, state of the whole session, without checking that it is still the session's current stream: when a newer stream has replaced it, the old stream's exit takes away what belongs to the newer one (pending server requests, registrations)", fname(fn), mutates))
 					}
 				})
+				// R-ends-on-cancel: the record's cancel function is how a DELETE, a newer stream or Close ends this stream.
+				// It only does if the handler, after registering, waits on the Done() of the very context that function
+				// cancels: every blocking wait after the insert — here or in a helper the context is handed to — has
+				// such an arm.
+				var connCtx ssa.Value
+				if al, ok := rec.(*ssa.Alloc); ok && al.Referrers() != nil {
+					for _, r := range *al.Referrers() {
+						fa, ok := r.(*ssa.FieldAddr)
+						if !ok || fa.Referrers() == nil {
+							continue
+						}
+						if f, _, ok := ir.FieldOf(fa); !ok || !isCancelFunc(f.Type) {
+							continue
+						}
+						for _, rr := range *fa.Referrers() {
+							if st, ok := rr.(*ssa.Store); ok {
+								if ex, ok := unspill(st.Val).(*ssa.Extract); ok && ex.Index == 1 {
+									if wc, ok := ex.Tuple.(*ssa.Call); ok && strings.HasPrefix(ir.CallName(wc), "context.With") && wc.Referrers() != nil {
+										for _, r3 := range *wc.Referrers() {
+											if e0, ok := r3.(*ssa.Extract); ok && e0.Index == 0 {
+												connCtx = e0
+											}
+										}
+									}
+								}
+							}
+						}
+					}
+				}
+				if connCtx != nil {
+					doneOf := func(ch, ctxv ssa.Value) bool {
+						oc := originCall(ch)
+						return oc != nil && ir.CallName(oc) == "(context.Context).Done" && unspill(oc.Call.Value) == ctxv
+					}
+					var waits func(f *ssa.Function, ctxv ssa.Value, from ssa.Instruction, d int)
+					nWait := 0
+					waits = func(f *ssa.Function, ctxv ssa.Value, from ssa.Instruction, d int) {
+						ir.EachInstr(f, func(_ *ssa.BasicBlock, _ int, in ssa.Instruction) {
+							if from != nil && !flow.Reaches(from, in) {
+								return
+							}
+							switch x := in.(type) {
+							case *ssa.UnOp:
+								if x.Op != token.ARROW {
+									return
+								}
+								nWait++
+								c.R.Check(ctxv != nil && doneOf(x.X, ctxv), "R-ends-on-cancel", sprintf("wait #%d after registering in %s", nWait, fname(f)), c.Pos(x.Pos()),
+									"waits for the context the record's cancel function cancels",
+									sprintf("%s, after the stream was registered by %s, blocks on something other than the Done() of the context that the registered cancel function cancels: DELETE, a replacing stream or shutdown call that function, and the stream stays open", fname(f), fname(fn)))
+							case *ssa.Select:
+								if !x.Blocking {
+									return
+								}
+								nWait++
+								has := false
+								for _, st := range x.States {
+									if ctxv != nil && doneOf(st.Chan, ctxv) {
+										has = true
+									}
+								}
+								c.R.Check(has, "R-ends-on-cancel", sprintf("wait #%d after registering in %s", nWait, fname(f)), c.Pos(x.Pos()),
+									"has an arm on the context the record's cancel function cancels",
+									sprintf("%s, after the stream was registered by %s, waits in a select that has no arm on the Done() of the context that the registered cancel function cancels: DELETE, a replacing stream or shutdown call that function, and the stream stays open", fname(f), fname(fn)))
+							case *ssa.Call:
+								if d >= 1 {
+									return
+								}
+								sc := ir.StaticCallee(x)
+								if sc == nil || !c.P.IsLib(sc) || sc == f {
+									return
+								}
+								// only helpers that wait themselves (not senders: a write is bounded by the peer, not by us)
+								blocks := false
+								ir.EachInstr(sc, func(_ *ssa.BasicBlock, _ int, in2 ssa.Instruction) {
+									if u, ok := in2.(*ssa.UnOp); ok && u.Op == token.ARROW {
+										blocks = true
+									}
+									if sel, ok := in2.(*ssa.Select); ok && sel.Blocking {
+										blocks = true
+									}
+								})
+								if !blocks {
+									return
+								}
+								var inner ssa.Value
+								for i, a := range x.Call.Args {
+									if unspill(a) == ctxv && i < len(sc.Params) {
+										inner = sc.Params[i]
+									}
+								}
+								waits(sc, inner, nil, d+1)
+							}
+						})
+					}
+					waits(fn, connCtx, ins.Instr, 0)
+				}
 				// self tear-down deletes
 				for _, del := range fi.deletes {
 					nSelf++
